@@ -58,8 +58,14 @@ End(e) ==
   /\ UNCHANGED <<size, kindOf, act, ov, short, started, links>>
 
 \* a process killed while it was the only writer (strace kill injection)
+\* e.after: the good content stored again (Import or Put) on what the killed writer left; a store that reports success
+\* must leave the blob retrievable, complete and right
 Kill(e) ==
-  /\ Report(e, IF e.len = e.size * e.unit /\ e.units # Good(e.size) THEN {"right-size-wrong-content", "after-kill"} ELSE {})
+  /\ Report(e, (IF e.len = e.size * e.unit /\ e.units # Good(e.size) THEN {"right-size-wrong-content", "after-kill"} ELSE {})
+          \cup (IF e.after.op # "none" /\ e.after.err = "" /\ (~e.after.get \/ e.after.len # e.size * e.unit \/ e.after.units # Good(e.size))
+                THEN {"store-after-crash-ok-but-blob-not-complete", "after-kill"} ELSE {})
+          \cup (IF e.after.op # "none" /\ e.after.len = e.size * e.unit /\ e.after.units # Good(e.size)
+                THEN {"right-size-wrong-content", "after-kill"} ELSE {}))
   /\ UNCHANGED <<size, kindOf, act, ov, short, started, links>>
 
 \* sequential API histories over manifests m (index) and names n (index of the folded name)
